@@ -97,8 +97,14 @@ def materialize(g: graph.Graph, paths: list[list[int]]) -> list[list[dict]]:
         t = []
         for n, i in enumerate(p):
             e = g.edges[i]
-            t.append({"from": e["from"], "op": e["op"], "allowed": e.get("allowed", [])} if n == 0
-                     else {"op": e["op"], "allowed": e.get("allowed", [])})
+            x = {"op": e["op"], "allowed": e.get("allowed", [])}
+            if n == 0:
+                x["from"] = e["from"]
+            if e.get("fixed"):
+                x["fixed"] = e["fixed"]
+            if len(e.get("errok", ())) > 1:
+                x["errok"] = e["errok"]
+            t.append(x)
         out.append(t)
     return out
 
